@@ -828,6 +828,7 @@ func AdoptSession(p Persistence, c *Config) (client *Client, warn []error, fatal
 
 	// storage includes a sequence number
 	storeOrderPerKey := make(map[uint]uint64, len(keys))
+	var storageSeqNoMax uint64
 
 	// “When a Client reconnects with CleanSession set to 0, both the Client
 	// and Server MUST re-send any unacknowledged PUBLISH Packets (where QoS
@@ -856,6 +857,7 @@ func AdoptSession(p Persistence, c *Config) (client *Client, warn []error, fatal
 		}
 
 		storeOrderPerKey[key] = storageSeqNo
+		storageSeqNoMax = max(storageSeqNoMax, storageSeqNo)
 
 		switch packet[0] >> 4 {
 		case typePUBLISH:
@@ -900,7 +902,10 @@ func AdoptSession(p Persistence, c *Config) (client *Client, warn []error, fatal
 	if n := len(publishExactlyOnceKeys) + len(publishReleaseKeys); n > c.ExactlyOnceMax {
 		return nil, warn, fmt.Errorf("mqtt: %d ExactlyOnceMax is less than the %d pending in session", c.ExactlyOnceMax, n)
 	}
-	client = newClient(&ruggedPersistence{Persistence: p}, c)
+	// New records must order after the ones found.
+	rugged := &ruggedPersistence{Persistence: p}
+	rugged.seqNo.Store(storageSeqNoMax)
+	client = newClient(rugged, c)
 
 	// check for outbound publish pending confirmation
 	if keys = publishAtLeastOnceKeys; len(keys) != 0 {
